@@ -48,6 +48,8 @@ DEF_ALIGNED(Aligned, rpc::Message)    DEF_ALIGNED(AlignedC, rpc::CheckedMessage<
 DEF_NESTED(Nested, rpc::Message, Inner) DEF_NESTED(NestedC, rpc::CheckedMessage<>, InnerC)
 DEF_MAP(WithMap, rpc::Message)        DEF_MAP(WithMapC, rpc::CheckedMessage<>)
 
+static_assert(sizeof(rpc::CheckedMessage<>) == 4, "the harness assumes m_checksum (uint32) is the first 4 bytes of a checked message body");
+
 // ------------------------------------------------------------------------------------------------ small helpers
 struct Regions {
     struct R { const char* p; size_t n; };
@@ -556,12 +558,23 @@ struct TypeRun {
                            : (o.result && !o.body_in) ? "body-outside-input" : !o.probs.empty() ? o.probs[0].sig : nullptr;
             if (sg) fprintf(g_faillog, "%s\t%s\n", sg, c.sh->cur);
         }
+        bool forged = false;
         if (o.result == 2) { c.fail("crash-in-deserialize", "SIGSEGV/SIGBUS at address %p inside DeserializerIOV::deserialize (contained by the harness)", o.fault); return; }
         if (o.result == 3) c.fail("crash-reading-fields", "SIGSEGV/SIGBUS at address %p while reading the fields of the returned message", o.fault);
         if (kind == KIND_A) {
             if (o.result == 0) { c.fail("roundtrip-rejected", "deserialize() returned null for a valid image"); return; }
         } else if (o.result != 0 && checked && altered) {
-            c.fail("checked-message-alteration-accepted", "a CheckedMessage whose bytes differ from what was sent was accepted");
+            // What a 32-bit checksum owes us: an alteration that leaves the stored checksum alone (or touches nothing else) must be
+            // rejected. Overwriting the stored checksum TOGETHER with other bytes is a forgery attempt that no CRC can exclude
+            // (e.g. an all-zero body carries the valid checksum 0 because Crc32Hasher starts from 0): not held against the library.
+            // The body is taken from the back; m_checksum is its first 4 bytes (CheckedMessage<> is the first base, sizeof == 4).
+            const char* rb = bytes.data() + bytes.size() - sizeof(T);
+            bool cks_changed = memcmp(rb, img.data() + B, 4) != 0;
+            bool rest_same = memcmp(rb + 4, img.data() + B + 4, sizeof(T) - 4) == 0;
+            bool payload_same = bytes.size() == L && memcmp(bytes.data(), img.data(), B) == 0;
+            if (cks_changed && !(rest_same && payload_same)) { forged = true; c.cls(seqx::mix(h, 0xf0)); }
+            else if (!cks_changed && rest_same) c.fail("checked-message-payload-alteration-accepted", "a CheckedMessage whose field payload bytes (in front of the body) differ from what was sent was accepted");
+            else c.fail("checked-message-body-alteration-accepted", "a CheckedMessage whose body bytes differ from what was sent (stored checksum %s) was accepted", cks_changed ? "altered, nothing else" : "untouched");
         }
         if (o.result == 0) return;
         if (!o.body_in) { c.fail("body-outside-input", "returned message body is not inside the supplied blocks nor an iovector-owned copy"); return; }
